@@ -11,28 +11,41 @@ PROPS = "Props/C02.v"
 COQ_CHECK = ("Model.C02x", "check")
 COQ_FALLBACK = ("Model.C02", "spec_ok")
 COQ_IMPORTS = "From PAV Require Import Model.C02."
-SHARD = 150
+SHARD = 200
 RULE = ("all-shapes sweep (see exhaustive_subspace), then geometries: shapes H,W in 1..9 (all parity combinations, 1xN and Nx1 included), anisotropic pixel scales, unequal origin "
-        "components, random masks. EXACT stream: dyadic scales (also 3/2, 3, 3/4, 5/4), origins that are dyadic multiples of the scale and "
-        "query coordinates on a 1/16-pixel lattice over the whole extent plus a one-pixel rim outside it -- every double operation of the "
-        "implementation is exact, so pixel-boundary and radius TIES are included and compared exactly. TOLERANCE stream: arbitrary "
-        "two-decimal doubles for scales / origins / coordinates / radii / angles; real-valued outputs compared to 1e-9, every decision "
-        "(pixel boundary, mask radius) kept at an exact-rational margin >= 1e-6 (cases inside the band are skipped and counted). "
+        "components, random masks. EXACT stream: dyadic scales (also 3/2, 3, 3/4, 5/4) times a power-of-two magnitude (2^-40, 2^-22 ~ 2.4e-7 rad, 1, 2^20, 2^31), origins "
+        "that are dyadic multiples of the scale and query coordinates on a 1/16-pixel lattice over the whole extent plus a one-pixel rim outside it -- every double operation "
+        "of the implementation is exact, so pixel-boundary and radius TIES are included and compared exactly. TOLERANCE stream: two-decimal doubles times a power of two, "
+        "full-mantissa scales / origins (1/3, 0.0123457, pi/10), radian-sized scales (2.4e-7, 1.1e-7) with origins like 3e-6, origins 1e4 pixels from zero, scales 1e6..4e8, "
+        "coordinates anywhere in the extent incl. the origin itself, exact zeros and mirror images; real-valued outputs compared to 1e-11 RELATIVE to the magnitudes involved, every decision "
+        "(pixel boundary, mask radius) kept at an exact-rational margin >= 1e-6 of a pixel / of the scale (cases inside the band are skipped and counted). "
         "Mask constructors: radii on a 1/4 lattice (ties with pixel centres are frequent), centres k/4 pixels off, axis ratios in "
-        "{1/4..1}, arbitrary angles (cos/sin handed to the model as the rational value of the doubles math.cos/math.sin). Every "
-        "case goes through the public entry point (Mask2D.geometry.*, Grid2D.from_mask / uniform, derive_grid.all_false / unmasked, "
-        "Mask2D.circular / circular_annular / circular_anti_annular / elliptical / elliptical_annular, Mask1D.geometry, "
-        "Grid1D.from_mask / uniform) AND the util function; both outputs are checked. Non-trivial = non-square shape or "
-        "unequal scales or non-zero origin/centre; distinct = distinct JSON input.")
+        "{1/4..1}, arbitrary angles (cos/sin handed to the model as the rational value of the doubles math.cos/math.sin), invert on/off, non-zero mask origin. "
+        "HISTORIES (op session / session1): a pool of live Mask2D / Mask1D objects that differ in ONE attribute (origin / pixel scales / shape), queried in an interleaved order "
+        "through the Geometry2D held from the start and through freshly fetched ones, the same query repeated through the same and through a sibling object, in-place edits "
+        "mask[i, j] = v between reads of the pixel-centre grid. DERIVED structures (op derived / derived1): geometry of arithmetic results, .native / .slim, derive_mask.all_false, "
+        "resized masks, Mask2D(mask=<Mask2D>); query grids that are arithmetic results, native->slim, built from a natively shaped array, or the pixel-centre grid of ANOTHER "
+        "mask; the Grid2D that carries the query points has its own native shape (any factorisation of the point count), unrelated to the geometry. Every array / Grid2D handed to "
+        "the implementation is fingerprinted and compared after the call. Every case goes through the public entry point (Mask2D.geometry.*, Grid2D.from_mask / uniform, "
+        "derive_grid.all_false / unmasked, the Mask2D constructors, Mask1D.geometry, Grid1D.from_mask / uniform) AND the util function; the OBJECT returned by the public entry "
+        "point (values, mask content, pixel scales, origin) is checked against the generated class-layer model and the specification; where the util function / a second entry "
+        "point returned exactly the same thing it is judged once. Arguments equal to the documented default (origin (0,0), centre (0,0), invert False) are NOT passed, so the "
+        "defaults themselves are exercised (12% of the geometries have origin (0,0)). Sibling mask cases (same shape and scales / other centre, same centre / other scales) follow "
+        "every circular case in the same process. Non-trivial = non-square shape or "
+        "unequal scales or non-zero origin/centre or a history; distinct = distinct JSON input.")
 EXHAUSTIVE = {
     "quick": "every shape H x W with H, W <= 6 and every pixel of it: pixel-centre grid, centre -> (row, column) -> flat index "
              "(one sampled anisotropic geometry with unequal non-zero origin per shape; scales / origins are sampled, not enumerated)",
     "thorough": "as quick with H, W <= 9",
 }
 TRUSTED = ["py2v plug-in py2v/gen_geometry.py (fail-closed ast -> Gallina over NumOps; coq/Gen/Gen_geometry.v regenerated from /repo on "
-           "every run): scalar conversions, Geometry1D/2D extent properties, the slim-grid conversion loops, the pixel-centre gathers, "
+           "every run): scalar conversions, Geometry1D/2D properties and methods, the slim-grid conversion loops, the native 3-D loop, the pixel-centre gathers, "
            "the circular / annular / anti-annular constructor loops and (over R only) elliptical_radius_from and the two elliptical "
-           "constructor loops; pinned glue: Geometry*.__init__, convert_pixel_scales_2d, total_pixels_{1,2}d_from",
+           "constructor loops; the class layer (Mask2D / Mask1D constructors and geometry, Grid2D / Grid1D from_mask / uniform, DeriveGrid2D, DeriveMask2D/1D.all_false); "
+           "pinned glue: Geometry*.__init__, Mask2D/Mask1D/Mask.__init__, shape_native, derive_mask / derive_grid, Derive*.__init__, Structure.shape_native / pixel_scales / origin, "
+           "Grid2D.no_mask, Grid1D.no_mask, convert_pixel_scales_{1,2}d, total_pixels_{1,2}d_from",
+           "object contract written in the header of Gen_geometry.v (not derived from source, checked per case): Grid2D / Array2D / Grid1D(values=slim v, mask=M) stores v unchanged, "
+           "np.array() of a slim-stored structure is its values, .astype('int') truncates toward zero",
            "NumPy oracle contract written in the header of Gen_geometry.v: arctan2 = angle of (x, y) in (-pi, pi], radians = d pi/180, "
            "sin / cos / sqrt = the mathematical functions, element-wise double arithmetic = real arithmetic on the exact stream",
            "executable (cos, sin)-pair form of the elliptical constructors (Model/C02x.v): PROVED equal to the generated trigonometric "
@@ -40,14 +53,16 @@ TRUSTED = ["py2v plug-in py2v/gen_geometry.py (fail-closed ast -> Gallina over N
            "libm's cos/sin to 1e-9 (checked per case), decisions kept 1e-6 away",
            "QOps execution: sqrtT is a 2^-64 rational approximation (exact on squares of rationals); generated radii keep it away "
            "from every decision unless the tie is exact",
-           "correspondence harness harness/c02.py (Fraction(float) conversion, exact margins)"]
+           "correspondence harness harness/c02.py (Fraction(float) conversion, exact margins, expected mask content tracked across in-place edits)"]
 ASSUMPTIONS = ["real arithmetic (no rounding): theorems over R; the exact stream makes double arithmetic exact, the tolerance stream "
-               "stays 1e-6 away from every decision, which is the exclusion band of the property text (1e-9) with room to spare",
+               "stays 1e-6 of a pixel away from every decision, which is the exclusion band of the property text (1e-9) with room to spare",
                "pixel scales > 0; Python int() = truncation toward zero",
-               "class glue (Grid2D / Array2D / Mask2D construction, .astype('int')) is covered by correspondence only"]
+               "natively STORED Grid2D objects are not handed to the Geometry2D grid methods (they raise TypeError on them); geometry of derived structures "
+               "(arithmetic results, .native / .slim, derived / resized masks) is covered by correspondence only",
+               "Mask1D.derive_grid.all_false on masks with masked pixels is a listed known finding (specification-only case; repair in fixes/)"]
 
-TOL = Fraction(1, 10 ** 9)
-MARGIN = Fraction(1, 10 ** 6)
+REL = 1e-11                       # relative tolerance of real-valued outputs on the tolerance stream (relative to the magnitudes involved)
+MARGIN = Fraction(1, 10 ** 6)     # decision margin, in PIXEL units (conversions) / relative to the pixel scale magnitude (mask radii)
 SKIPPED = {"inband": 0, "redrawn": 0}
 
 def extra_evidence():
@@ -63,28 +78,77 @@ def qlist(v): return clist([cq(x) for x in v])
 def q2list(g): return clist([q2(p) for p in g])
 def cmask(m): return clist([clist([cbool(bool(b)) for b in r]) for r in m])
 def fr2(a): return [[frac(a[i][0]), frac(a[i][1])] for i in range(len(a))]
+def q4(e): return ctup([cq(frac(v)) for v in e])
+
+def q2f(p): return q2((frac(p[0]), frac(p[1])))
+def cmobj(M):
+    """a Mask2D object as (content, pixel_scales, origin), read from the object"""
+    return f"({cmask(np.array(M).astype(bool))}, {q2f(M.pixel_scales)}, {q2f(M.origin)})"
+def cgobj(G):
+    """a slim Grid2D object as (values, mask object)"""
+    return f"({q2list(fr2(np.array(G)))}, {cmobj(G.mask)})"
+def cm1obj(M):
+    return f"({clist([cbool(bool(b)) for b in np.array(M)])}, {cq(frac(M.pixel_scales[0]))}, {cq(frac(M.origin[0]))})"
+def cg1obj(G):
+    return f"({qlist([frac(v) for v in np.array(G)])}, {cm1obj(G.mask)})"
+
+def tol_of(exact, *mags):
+    """0 on the exact stream; else REL * (largest magnitude involved), rounded up to a short dyadic"""
+    if exact: return Fraction(0)
+    m = float(max(abs(Fraction(x)) for x in mags)) * REL
+    e = math.floor(math.log2(m)) - 7
+    return Fraction(math.ceil(m / 2.0 ** e)) * Fraction(2) ** e
 
 EXACT_SCALES = [Fraction(1, 4), Fraction(1, 2), Fraction(1), Fraction(2), Fraction(4), Fraction(3, 2), Fraction(3),
                 Fraction(3, 4), Fraction(5, 4)]
+# power-of-two magnitudes: 2^-22 ~ 2.4e-7 (pixel scales in radians), 2^20 ~ 1e6, 2^-40 ~ 9e-13, 2^31 ~ 2e9.  Scaling every input by a
+# power of two scales every double operation exactly: the decisions are those of the unit-magnitude case, only absolute epsilons show
+MAGS = [0] * 13 + [-22] * 3 + [20] * 2 + [-40, 31]
+NONROUND = [1 / 3, 0.0123457, math.pi / 10, 2 / 7, 0.7 / 3]
+RADIAN = [2.4e-7, 1.1e-7, 4.85e-6]
 
 def rand_geom(rng, exact, dims=2):
     """shape, scales, origin (as Fractions); exact: o/s and every later operation is exact in doubles"""
     shape = [rng.randint(1, 9) for _ in range(dims)]
     if rng.random() < 0.15: shape[rng.randrange(dims)] = 1
+    r2 = lambda a, b: float(round(rng.uniform(a, b), 2))
     if exact:
-        s = [rng.choice(EXACT_SCALES) for _ in range(dims)]
+        f = Fraction(2) ** rng.choice(MAGS)
+        s = [rng.choice(EXACT_SCALES) * f for _ in range(dims)]
         if dims == 2 and rng.random() < 0.2: s[1] = s[0]
         o = [si * Fraction(rng.randint(-12, 12), 4) if rng.random() < 0.85 else Fraction(0) for si in s]
-    else:
-        s = [Fraction(float(rng.choice([0.05, 0.1, 0.3, 0.7, 1.0, 1.3, 2.5]) if rng.random() < 0.6 else round(rng.uniform(0.02, 3.0), 2)))
-             for _ in range(dims)]
-        o = [Fraction(float(round(rng.uniform(-3.0, 3.0), 2))) if rng.random() < 0.85 else Fraction(0) for _ in range(dims)]
+        if rng.random() < 0.12: o = [Fraction(0)] * dims
+        return shape, s, o
+    fam = rng.random()
+    if fam < 0.5:            # two-decimal doubles, scaled by a power of two
+        f = 2.0 ** rng.choice(MAGS)
+        s = [Fraction((rng.choice([0.05, 0.1, 0.3, 0.7, 1.0, 1.3, 2.5]) if rng.random() < 0.6 else r2(0.02, 3.0)) * f) for _ in range(dims)]
+        o = [Fraction(r2(-3.0, 3.0) * f) if rng.random() < 0.85 else Fraction(0) for _ in range(dims)]
+    elif fam < 0.7:          # scales / origins with a full mantissa (1/3-like): nothing is representable in a few decimals
+        s = [Fraction(rng.choice(NONROUND)) for _ in range(dims)]
+        o = [Fraction(rng.choice([rng.uniform(-3.0, 3.0), 1 / 3, -2 / 3, 0.0])) for _ in range(dims)]
+    elif fam < 0.82:         # radian-sized pixel scales (interferometer real-space masks)
+        s = [Fraction(rng.choice(RADIAN)) for _ in range(dims)]
+        o = [Fraction(rng.choice([3e-6, -1e-6, 0.0, rng.uniform(-10, 10) * float(si)])) for si in s]
+    elif fam < 0.92:         # origin thousands of pixels away from zero
+        s = [Fraction(rng.choice([0.05, 0.1, 0.3, 1.0, 2.5])) for _ in range(dims)]
+        o = [Fraction(round(rng.uniform(-2e4, 2e4)) * float(si) + r2(-1, 1)) for si in s]
+    else:                    # huge pixel scales
+        s = [Fraction(rng.choice([1e6, 3.7e8, 2.5e3])) for _ in range(dims)]
+        o = [Fraction(rng.uniform(-5, 5) * float(si)) for si in s]
+    if dims == 2 and rng.random() < 0.2: s[1] = s[0]
+    if rng.random() < 0.12: o = [Fraction(0)] * dims          # the default origin: the harness then does not pass `origin` at all
     return shape, s, o
 
 def pixel_pos(n, s, o, v, flip):
     """exact continuous pixel coordinate (the argument of int()) of scaled value v on an axis"""
     cp = Fraction(n - 1, 2)
     return ((o - v) if flip else (v - o)) / s + cp + Fraction(1, 2)
+
+def in_margin(p):
+    """continuous pixel coordinate within MARGIN of an integer (a pixel boundary)"""
+    d = abs(p - round(p))
+    return d < MARGIN
 
 def rand_coord(rng, n, s, o, exact, flip):
     """a scaled coordinate: mostly inside the extent, sometimes on a pixel boundary (exact stream), sometimes outside"""
@@ -98,16 +162,14 @@ def rand_coord(rng, n, s, o, exact, flip):
     lo, hi = float(o - n * s / 2), float(o + n * s / 2)
     if rng.random() < 0.12: lo, hi = lo - float(s), hi + float(s)
     for _ in range(50):
-        v = Fraction(float(round(rng.uniform(lo, hi), 3)))
+        u = rng.random()
+        v = Fraction(lo + u * (hi - lo))
+        if u < 0.06: v = Fraction(float(o))                             # the origin itself
+        elif u < 0.10 and lo < 0 < hi: v = Fraction(0)                  # an exact zero
         if in_margin(pixel_pos(n, s, o, v, flip)):
             SKIPPED["redrawn"] += 1; continue
         return v
-    return Fraction(float(o))
-
-def in_margin(p):
-    """continuous pixel coordinate within MARGIN of an integer (a pixel boundary)"""
-    d = abs(p - round(p))
-    return d < MARGIN
+    return Fraction(lo + 0.3712 * (hi - lo))
 
 def rand_mask(rng, H, W):
     st = rng.random()
@@ -117,31 +179,45 @@ def rand_mask(rng, H, W):
     if all(all(r) for r in m): m[rng.randrange(H)][rng.randrange(W)] = False
     return m
 
+def factor_pairs(n):
+    return [[a, n // a] for a in range(1, n + 1) if n % a == 0]
+
 # ----------------------------------------------------------------------------- generators
-GEOM_OPS = ["central2", "extent2", "pix2", "scaled2", "gridpixels", "gridcentres", "gridindexes", "gridscaled", "gridmask"]
+GEOM_OPS = ["central2", "extent2", "extentgrid", "pix2", "scaled2", "gridpixels", "gridcentres", "gridindexes", "gridscaled", "gridmask"]
 GEOM1_OPS = ["central1", "extent1", "pix1", "scaled1", "grid1mask"]
+
+def rand_points(rng, H, W, sy, sx, oy, ox, exact, k):
+    pts = [[rand_coord(rng, H, sy, oy, exact, True), rand_coord(rng, W, sx, ox, exact, False)] for _ in range(k)]
+    y, x = pts[0]
+    pts.append([2 * oy - y, x] if exact else [Fraction(float(2 * oy - y)), x])     # mirror image about the origin row (symmetric inputs)
+    for _ in range(2):    # pixel centres themselves (index -> centre -> index round trip is then visible in the outputs)
+        i, j = rng.randrange(H), rng.randrange(W)
+        c = [oy + (Fraction(H - 1, 2) - i) * sy, ox + (j - Fraction(W - 1, 2)) * sx]
+        pts.append(c if exact else [Fraction(float(c[0])), Fraction(float(c[1]))])
+    return [[S(p[0]), S(p[1])] for p in pts]
+
+def rand_pix(rng, H, W, exact, k):
+    if exact:
+        pix = [[S(Fraction(rng.randint(-16, 16 * H + 16), 16)), S(Fraction(rng.randint(-16, 16 * W + 16), 16))] for _ in range(k)]
+    else:
+        pix = [[S(Fraction(float(round(rng.uniform(-1, H + 1), 3)))), S(Fraction(float(round(rng.uniform(-1, W + 1), 3))))] for _ in range(k)]
+    return pix + [[S(rng.randrange(H)), S(rng.randrange(W))] for _ in range(2)]
 
 def gen_geometry_cases(rng, exact):
     (H, W), (sy, sx), (oy, ox) = rand_geom(rng, exact)
     base = {"exact": exact, "shape": [H, W], "s": [S(sy), S(sx)], "o": [S(oy), S(ox)]}
-    pts = [[S(rand_coord(rng, H, sy, oy, exact, True)), S(rand_coord(rng, W, sx, ox, exact, False))] for _ in range(rng.randint(3, 8))]
-    # pixel centres themselves (index -> centre -> index round trip is then visible in the outputs)
-    for _ in range(2):
-        i, j = rng.randrange(H), rng.randrange(W)
-        pts.append([S(oy + (Fraction(H - 1, 2) - i) * sy), S(ox + (j - Fraction(W - 1, 2)) * sx)])
-    if exact:
-        pix = [[S(Fraction(rng.randint(-16, 16 * H + 16), 16)), S(Fraction(rng.randint(-16, 16 * W + 16), 16))] for _ in range(4)]
-    else:
-        pix = [[S(Fraction(float(round(rng.uniform(-1, H + 1), 3)))), S(Fraction(float(round(rng.uniform(-1, W + 1), 3))))] for _ in range(4)]
-    pix += [[S(rng.randrange(H)), S(rng.randrange(W))] for _ in range(2)]
+    pts = rand_points(rng, H, W, sy, sx, oy, ox, exact, rng.randint(3, 7))
+    pix = rand_pix(rng, H, W, exact, 4)
+    cont = lambda g: rng.choice(factor_pairs(len(g)))      # native shape of the Grid2D that carries the query points
     yield dict(base, op="central2")
     yield dict(base, op="extent2")
+    yield dict(base, op="extentgrid")
     for p in pts[:4]: yield dict(base, op="pix2", c=p)
     for p in pix[:3] + pix[-1:]: yield dict(base, op="scaled2", p=p)
-    yield dict(base, op="gridpixels", g=pts)
-    yield dict(base, op="gridcentres", g=pts)
-    yield dict(base, op="gridindexes", g=pts)
-    yield dict(base, op="gridscaled", g=pix)
+    yield dict(base, op="gridpixels", g=pts, cont=cont(pts))
+    yield dict(base, op="gridcentres", g=pts, cont=cont(pts))
+    yield dict(base, op="gridindexes", g=pts, cont=cont(pts))
+    yield dict(base, op="gridscaled", g=pix, cont=cont(pix))
     yield dict(base, op="gridmask", m=rand_mask(rng, H, W))
 
 def gen_geometry1_cases(rng, exact):
@@ -150,7 +226,8 @@ def gen_geometry1_cases(rng, exact):
     yield dict(base, op="central1")
     yield dict(base, op="extent1")
     for _ in range(3): yield dict(base, op="pix1", x=S(rand_coord(rng, n, s, o, exact, False)))
-    yield dict(base, op="pix1", x=S(o + (rng.randrange(n) - Fraction(n - 1, 2)) * s))
+    c = o + (rng.randrange(n) - Fraction(n - 1, 2)) * s
+    yield dict(base, op="pix1", x=S(c if exact else Fraction(float(c))))
     for _ in range(2):
         p = Fraction(rng.randint(-16, 16 * n + 16), 16) if exact else Fraction(float(round(rng.uniform(-1, n + 1), 3)))
         yield dict(base, op="scaled1", p=S(p))
@@ -158,6 +235,94 @@ def gen_geometry1_cases(rng, exact):
     m = [rng.random() < 0.4 for _ in range(n)]
     if all(m): m[rng.randrange(n)] = False
     yield dict(base, op="grid1mask", m=m)
+
+def sibling_geoms(rng, exact, H, W, sy, sx, oy, ox):
+    """geometries that differ from (H, W, s, o) in ONE attribute each: origin, pixel scales, shape"""
+    if exact:
+        o2 = [oy + sy * Fraction(rng.choice([-5, -2, 1, 3, 6]), 4), ox + sx * Fraction(rng.choice([-6, -1, 2, 5]), 4)]
+        s2 = [sy * rng.choice([Fraction(1, 2), 2]), sx * rng.choice([Fraction(1, 2), 2, 1])]
+    else:
+        o2 = [Fraction(float(oy + sy * Fraction(rng.randint(-40, 40), 7))), Fraction(float(ox - sx * Fraction(rng.randint(1, 40), 9)))]
+        s2 = [Fraction(float(sy) * rng.choice([0.5, 1.1, 3.0])), Fraction(float(sx) * rng.choice([0.9, 2.0, 1.0]))]
+    sh2 = [W, H] if H != W else [H, W + 1]
+    return [([H, W], [sy, sx], o2), ([H, W], s2, [oy, ox]), (sh2, [sy, sx], [oy, ox])]
+
+def gen_session(rng, exact):
+    """HISTORIES: a pool of live Mask2D objects (siblings differing in one attribute) queried in an interleaved order, the same
+    query repeated through the same object, through the Geometry2D held from the start and through a freshly fetched one, with
+    in-place edits `mask[i, j] = value` between reads of the pixel-centre grid"""
+    (H, W), (sy, sx), (oy, ox) = rand_geom(rng, exact)
+    geoms = [([H, W], [sy, sx], [oy, ox])] + sibling_geoms(rng, exact, H, W, sy, sx, oy, ox)
+    objs = [{"shape": sh, "s": [S(s[0]), S(s[1])], "o": [S(o[0]), S(o[1])], "m": rand_mask(rng, sh[0], sh[1])} for sh, s, o in geoms]
+    steps = []
+    for _ in range(rng.randint(9, 14)):
+        k = rng.randrange(len(objs))
+        (h, w), (a, b), (c, d) = geoms[k]
+        do = rng.choice(["extent", "extent", "central", "pix", "scaled", "gc", "gi", "gp", "gs", "grid", "grid", "edit", "edit", "extentgrid"])
+        st = {"k": k, "do": do, "held": rng.random() < 0.5}
+        if do == "pix": st["c"] = rand_points(rng, h, w, a, b, c, d, exact, 1)[0]
+        elif do == "scaled": st["p"] = rand_pix(rng, h, w, exact, 1)[0]
+        elif do in ("gc", "gi", "gp"):
+            st["g"] = rand_points(rng, h, w, a, b, c, d, exact, 2); st["cont"] = rng.choice(factor_pairs(len(st["g"])))
+        elif do == "gs":
+            st["g"] = rand_pix(rng, h, w, exact, 2); st["cont"] = rng.choice(factor_pairs(len(st["g"])))
+        elif do == "edit":
+            st["at"] = [rng.randrange(h), rng.randrange(w)]; st["val"] = rng.random() < 0.5
+        steps.append(st)
+        u = rng.random()
+        if do != "edit":
+            if u < 0.3: steps.append(dict(st, held=not st["held"]))                         # the same query again, same object
+            elif u < 0.6: steps.append(dict(st, k=rng.randrange(len(objs))))                # the same query through a sibling object
+        else:
+            steps.append({"k": k, "do": "grid", "held": True})                              # re-read after the edit
+    yield {"op": "session", "exact": exact, "objs": objs, "steps": steps}
+
+def gen_session1(rng, exact):
+    (n,), (s,), (o,) = rand_geom(rng, exact, dims=1)
+    o2 = o + s * Fraction(rng.choice([-5, -2, 1, 3]), 4) if exact else Fraction(float(o + s * Fraction(rng.randint(1, 30), 7)))
+    s2 = s * 2 if exact else Fraction(float(s) * 1.7)
+    geoms = [(n, s, o), (n, s, o2), (n, s2, o), (n + 1, s, o)]
+    objs = []
+    for nn, a, b in geoms:
+        m = [rng.random() < 0.4 for _ in range(nn)]
+        if all(m): m[rng.randrange(nn)] = False
+        objs.append({"n": nn, "s": S(a), "o": S(b), "m": m})
+    steps = []
+    for _ in range(rng.randint(7, 11)):
+        k = rng.randrange(4)
+        do = rng.choice(["extent", "grid", "grid", "edit", "edit", "uniform"])
+        st = {"k": k, "do": do}
+        if do == "edit": st["at"] = rng.randrange(geoms[k][0]); st["val"] = rng.random() < 0.5
+        steps.append(st)
+        if do == "edit": steps.append({"k": k, "do": "grid"})
+        elif rng.random() < 0.4: steps.append(dict(st, k=rng.randrange(4)))
+    yield {"op": "session1", "exact": exact, "objs": objs, "steps": steps}
+
+def gen_derived(rng, exact):
+    """DERIVED structures: geometry of arithmetic results / .native / .slim / derived and resized masks, and query grids that are
+    themselves derived objects (arithmetic results, native -> slim, built from a natively shaped array, the pixel-centre grid of ANOTHER mask)"""
+    (H, W), (sy, sx), (oy, ox) = rand_geom(rng, exact)
+    base = {"exact": exact, "shape": [H, W], "s": [S(sy), S(sx)], "o": [S(oy), S(ox)], "op": "derived"}
+    yield dict(base, how="array", c=rand_points(rng, H, W, sy, sx, oy, ox, exact, 1)[0])
+    yield dict(base, how="mask", m=rand_mask(rng, H, W), resized=[max(1, H + rng.choice([-2, -1, 1, 2, 3])), max(1, W + rng.choice([-2, -1, 1, 2]))])
+    # another mask whose pixel centres are exact in this geometry's pixel units (same scales up to a factor 2, origin a quarter-pixel multiple away)
+    h2, w2 = rng.randint(1, 5), rng.randint(1, 5)
+    f = rng.choice([Fraction(1, 2), Fraction(1), Fraction(2)])
+    oth = {"shape": [h2, w2], "s": [S(sy * f), S(sx * f)],
+           "o": [S(oy + sy * Fraction(rng.randint(-6, 6), 4)), S(ox + sx * Fraction(rng.randint(-6, 6), 4))] if exact else
+                [S(Fraction(float(oy + sy * Fraction(rng.randint(-20, 20), 7)))), S(Fraction(float(ox + sx * Fraction(rng.randint(-20, 20), 7))))],
+           "m": rand_mask(rng, h2, w2)}
+    if not exact: oth["s"] = [S(Fraction(float(sy) * rng.choice([0.5, 0.8, 1.3]))), S(Fraction(float(sx) * rng.choice([0.6, 1.0, 1.9])))]
+    pts = rand_points(rng, H, W, sy, sx, oy, ox, exact, 3)
+    yield dict(base, how="container", g=pts, cont=rng.choice(factor_pairs(len(pts))), other=oth)
+
+def gen_derived1(rng, exact):
+    (n,), (s,), (o,) = rand_geom(rng, exact, dims=1)
+    m = [rng.random() < 0.4 for _ in range(n)]
+    if all(m): m[rng.randrange(n)] = False
+    yield {"op": "derived1", "exact": exact, "n": n, "s": S(s), "o": S(o), "m": m}
+    yield {"op": "derive1allfalse", "exact": exact, "n": n, "s": S(s), "o": S(o), "m": m}
+    yield {"op": "derive1allfalse", "exact": exact, "n": n, "s": S(s), "o": S(o), "m": [False] * n}
 
 def offsets2(H, W, sy, sx, cy, cx):
     """exact squared-distance ingredients (dy, dx) of every pixel centre (mask origin (0,0)) from the centre (cy, cx)"""
@@ -181,10 +346,10 @@ def tie_radii(H, W, sy, sx, cy, cx):
         if r is not None: out.add(r)
     return sorted(out)
 
-def radius_in_band(a2, r):
-    """is sqrt(a2) within MARGIN of r (exact arithmetic; an exact tie a2 == r^2 is reported separately)"""
+def radius_in_band(a2, r, margin):
+    """is sqrt(a2) within margin of r (exact arithmetic; an exact tie a2 == r^2 is reported separately)"""
     if r < 0: r = -r
-    lo = max(r - MARGIN, 0); hi = r + MARGIN
+    lo = max(r - margin, 0); hi = r + margin
     return lo * lo < a2 < hi * hi
 
 def ell2(dy, dx, c, s, q):
@@ -211,9 +376,10 @@ def rand_angle(rng, arbitrary):
     return ang, Fraction(c, h), Fraction(s, h)
 
 def mask_case_inband(inp):
-    """any pixel whose (elliptical) radius is within MARGIN of a radius parameter -> skip; on the exact stream of the
-    circular family an exact tie is allowed (the doubles compute it exactly)."""
+    """any pixel whose (elliptical) radius is within the margin of a radius parameter -> skip; on the exact stream of the
+    circular family an exact tie is allowed (the doubles compute it exactly).  The margin is MARGIN * 2^mag: relative to the scale."""
     H, W = inp["shape"]; sy, sx = F(inp["s"][0]), F(inp["s"][1]); cy, cx = F(inp["c"][0]), F(inp["c"][1])
+    margin = MARGIN * Fraction(2) ** inp.get("mag", 0)
     offs = offsets2(H, W, sy, sx, cy, cx)
     op = inp["op"]
     if op in ("circ", "ann", "anti"):
@@ -222,38 +388,43 @@ def mask_case_inband(inp):
             a2 = dy * dy + dx * dx
             for r in radii:
                 if inp["exact"] and a2 == r * r: continue
-                if radius_in_band(a2, r): return True
+                if radius_in_band(a2, r, margin): return True
         return False
     for dy, dx in offs:
         for R, q, ang, c, s in inp["ell"]:
-            if F(R) <= MARGIN or radius_in_band(ell2(dy, dx, F(c), F(s), F(q)), F(R)): return True
+            if F(R) <= margin or radius_in_band(ell2(dy, dx, F(c), F(s), F(q)), F(R), margin): return True
     return False
 
 TOL_SCALES = [0.05, 0.1, 0.3, 0.7, 1.0, 1.3]
 
 def gen_mask_cases(rng, exact, kinds):
     H, W = rng.randint(1, 9), rng.randint(1, 9)
+    mag = rng.choice(MAGS)                   # every length below is multiplied by 2^mag
+    f = Fraction(2) ** mag
     def dyadic_geom():
         sy, sx = rng.choice(EXACT_SCALES), rng.choice(EXACT_SCALES)
         if rng.random() < 0.4: sx = sy
         cy = sy * Fraction(rng.randint(-6, 6), 4) if rng.random() < 0.7 else Fraction(0)
         cx = sx * Fraction(rng.randint(-6, 6), 4) if rng.random() < 0.7 else Fraction(0)
-        return sy, sx, cy, cx, (lambda: Fraction(rng.randint(0, 24), 4) * rng.choice([sy, sx, Fraction(1)]))
+        return sy * f, sx * f, cy * f, cx * f, (lambda: f * Fraction(rng.randint(0, 24), 4) * rng.choice([sy, sx, Fraction(1)]))
     def short_geom():
         # `short doubles` (multiples of 2^-12): not dyadic-friendly (o/s, sqrt are inexact) yet cheap for the exact-rational model
         sy = snap(rng.choice(TOL_SCALES), 12)
         sx = sy if rng.random() < 0.5 else snap(rng.choice(TOL_SCALES), 12)
         cy = snap(rng.uniform(-2, 2) * float(sy), 12) if rng.random() < 0.7 else Fraction(0)
         cx = snap(rng.uniform(-2, 2) * float(sx), 12) if rng.random() < 0.7 else Fraction(0)
-        return sy, sx, cy, cx, (lambda: snap(rng.uniform(0, 5) * float(max(sy, sx)), 12))
-    origin = [S(Fraction(rng.randint(-8, 8), 4)), S(Fraction(rng.randint(-8, 8), 4))] if rng.random() < 0.6 else ["0", "0"]
+        return sy * f, sx * f, cy * f, cx * f, (lambda: f * snap(rng.uniform(0, 5) * float(max(sy, sx)), 12))
+    ok4 = [Fraction(rng.randint(-8, 8), 4), Fraction(rng.randint(-8, 8), 4)] if rng.random() < 0.6 else [Fraction(0), Fraction(0)]
     geoms = {True: dyadic_geom(), False: short_geom()}
     for kind in kinds:
         ell = kind in ("ell", "ellann")
         arbitrary = ell and rng.random() < 0.12
         sy, sx, cy, cx, rad = geoms[exact or (ell and not arbitrary)]
         h, w = (min(H, 5), min(W, 5)) if arbitrary else (H, W)
-        base = {"exact": exact and not ell, "shape": [h, w], "s": [S(sy), S(sx)], "c": [S(cy), S(cx)], "origin": origin}
+        # the mask origin: a quarter-pixel multiple on the exact stream (origin / scale is then exact)
+        origin = [S(sy * ok4[0]), S(sx * ok4[1])] if (exact and not ell) else [S(f * ok4[0]), S(f * ok4[1])]
+        base = {"exact": exact and not ell, "shape": [h, w], "s": [S(sy), S(sx)], "c": [S(cy), S(cx)], "origin": origin, "mag": mag,
+                "invert": rng.random() < 0.25}
         ties = tie_radii(h, w, sy, sx, cy, cx) if (exact and not ell) else []
         if ties and rng.random() < 0.5:
             rad0 = rad
@@ -274,7 +445,16 @@ def gen_mask_cases(rng, exact, kinds):
                     return [S(R), S(q), S(ang), S(c), S(s)]
                 inp = dict(base, op=kind, ell=[one()] if kind == "ell" else [one(), one()])
             if not mask_case_inband(inp):
-                yield inp; break
+                yield inp
+                if kind == "circ":
+                    # SIBLINGS in the same process: same shape and pixel scales with another centre, same centre with other pixel scales
+                    # (a result remembered per (shape, pixel scales) or per centre would be reused wrongly)
+                    dc = [sy * Fraction(rng.choice([-3, -1, 2, 5]), 4), sx * Fraction(rng.choice([-5, -2, 1, 3]), 4)]
+                    sib1 = dict(inp, c=[S(cy + dc[0]), S(cx + dc[1])])
+                    sib2 = dict(inp, s=[S(sy * 2), S(sx / 2)])
+                    for sib in (sib1, sib2):
+                        if not mask_case_inband(sib): yield sib
+                break
             SKIPPED["redrawn"] += 1
 
 def gen_all_shapes(rng, nmax):
@@ -286,22 +466,31 @@ def gen_all_shapes(rng, nmax):
             base = {"exact": True, "shape": [H, W], "s": [S(sy), S(sx)], "o": [S(oy), S(ox)]}
             centres = [[S(oy + (Fraction(H - 1, 2) - i) * sy), S(ox + (j - Fraction(W - 1, 2)) * sx)] for i in range(H) for j in range(W)]
             yield dict(base, op="gridmask", m=[[False] * W for _ in range(H)])
-            yield dict(base, op="gridcentres", g=centres)
-            yield dict(base, op="gridindexes", g=centres)
+            yield dict(base, op="gridcentres", g=centres, cont=[H, W])
+            yield dict(base, op="gridindexes", g=centres, cont=[W, H])
 
 def gen_inputs(tier, rng):
     big = tier == "thorough"
     yield from gen_all_shapes(rng, 9 if big else 6)
-    n_geom = 400 if big else 44
-    for i in range(n_geom):
+    for i in range(300 if big else 30):
         yield from gen_geometry_cases(rng, exact=(i % 3 != 2))
-    for i in range(200 if big else 24):
+    for i in range(150 if big else 21):
         yield from gen_geometry1_cases(rng, exact=(i % 3 != 2))
-    for i in range(900 if big else 90):
+    for i in range(150 if big else 15):
+        yield from gen_session(rng, exact=(i % 3 != 2))
+    for i in range(60 if big else 9):
+        yield from gen_session1(rng, exact=(i % 3 != 2))
+    for i in range(120 if big else 12):
+        yield from gen_derived(rng, exact=(i % 3 != 2))
+    for i in range(40 if big else 6):
+        yield from gen_derived1(rng, exact=(i % 3 != 2))
+    for i in range(500 if big else 45):
         yield from gen_mask_cases(rng, exact=(i % 3 != 2), kinds=["circ", "ann", "anti", "ell", "ellann"])
 
 # ----------------------------------------------------------------------------- running one case
 def nontrivial(inp):
+    if "objs" in inp: return True
+    if inp["op"] == "derive1allfalse": return any(inp["m"])
     if "shape" in inp:
         H, W = inp["shape"]
         return H != W or inp["s"][0] != inp["s"][1] or any(F(v) != 0 for v in inp.get("o", inp.get("c", ["0", "0"])))
@@ -313,175 +502,441 @@ def check_cs(ang, c, s):
     if abs(math.cos(a) - float(c)) > 1e-9 or abs(math.sin(a) - float(s)) > 1e-9:
         raise ValueError("harness input inconsistent: (cos, sin) does not belong to the angle")
 
-def grid_obj(aa, pts):
-    """the points as a Grid2D (the geometry methods want an object with a mask)"""
-    return aa.Grid2D.no_mask(values=[[fl(p[0]), fl(p[1])] for p in pts], shape_native=(len(pts), 1), pixel_scales=1.0)
+def grid_obj(aa, pts, cont=None):
+    """the points as a Grid2D (the geometry methods want an object with a mask); its OWN native shape `cont` and pixel scale 1 are
+    unrelated to the geometry that is queried"""
+    cont = tuple(cont) if cont else (len(pts), 1)
+    return aa.Grid2D.no_mask(values=[[fl(p[0]), fl(p[1])] for p in pts], shape_native=cont, pixel_scales=1.0)
+
+class Acc:
+    """Coq terms + Python-only verdicts of one run_case"""
+    def __init__(self): self.terms = []; self.ok = []; self.out = None; self.skipped = 0
+    def add(self, terms, out=None, ok=None):
+        self.terms += terms
+        if out is not None and self.out is None: self.out = out
+        if ok is not None: self.ok.append(bool(ok))
+    def py_ok(self): return all(self.ok) if self.ok else None
+
+def same_arr(a, b):
+    a, b = np.asarray(a), np.asarray(b)
+    return a.shape == b.shape and a.dtype == b.dtype and bool(np.array_equal(a, b))
+
+class G2:
+    """one 2-D geometry under test: the expected parameters (exact rationals, mask content) and the LIVE objects (a Mask2D and
+    the Geometry2D fetched from it once) that a history keeps using"""
+    def __init__(self, aa, shape, s, o, exact, m=None):
+        self.aa = aa; self.exact = exact
+        self.H, self.W = H, W = int(shape[0]), int(shape[1])
+        self.sy, self.sx = sy, sx = F(s[0]), F(s[1]); self.oy, self.ox = oy, ox = F(o[0]), F(o[1])
+        self.sh, self.ps, self.org = (H, W), (fl(sy), fl(sx)), (fl(oy), fl(ox))
+        self.ps_pub = self.ps[0] if (sy == sx and (H + W) % 2) else self.ps       # a bare float is widened by convert_pixel_scales_2d
+        # an origin equal to the documented default (0.0, 0.0) is NOT passed: the default arguments are exercised
+        self.ko = {} if (oy == 0 and ox == 0) else {"origin": self.org}
+        self.kos = {} if (oy == 0 and ox == 0) else {"origins": self.org}
+        self.m = [list(map(bool, r)) for r in m] if m is not None else [[False] * W for _ in range(H)]
+        if m is None: self.mask = aa.Mask2D.all_false(shape_native=self.sh, pixel_scales=self.ps_pub, **self.ko)
+        else: self.mask = aa.Mask2D(mask=np.array(self.m, dtype=bool), pixel_scales=self.ps_pub, **self.ko)
+        self.geo = self.mask.geometry
+        self.hdr = f"{z2(self.sh)} {q2((sy, sx))} {q2((oy, ox))}"
+        self.kw = dict(shape_native=self.sh, pixel_scales=self.ps, **self.ko)
+    def g(self, held): return self.geo if held else self.mask.geometry
+    def mobj(self):
+        """the EXPECTED mask object (current content, pixel scales, origin), from the inputs"""
+        return f"({cmask(self.m)}, {q2((self.sy, self.sx))}, {q2((self.oy, self.ox))})"
+    def geo_of(self, held=False):
+        geo = self.g(held)
+        out = f"({z2(geo.shape_native)}, {q2f(geo.pixel_scales)}, {q2f(geo.origin)})"
+        return [f"(KGeoOf {self.mobj()} {out})"], str((geo.shape_native, geo.pixel_scales, geo.origin)), None
+    def tol_s(self, *extra):     # scaled units
+        return tol_of(self.exact, max(abs(self.oy), abs(self.ox)) + max(self.H, self.W) * max(self.sy, self.sx) + max([abs(F(e)) for e in extra] + [0]))
+    def tol_p(self, *extra):     # pixel units
+        return tol_of(self.exact, max(self.H, self.W) + 1 + max(abs(self.oy / self.sy), abs(self.ox / self.sx)) + max([abs(F(e)) for e in extra] + [0]))
+    def margin_bad(self, pts):
+        return (not self.exact) and any(in_margin(pixel_pos(self.H, self.sy, self.oy, F(p[0]), True)) or
+                                        in_margin(pixel_pos(self.W, self.sx, self.ox, F(p[1]), False)) for p in pts)
+    # ---- operations: each returns None (inside the decision band: skipped) or (terms, out, py_ok)
+    def central(self, held=True):
+        from autoarray.geometry import geometry_util as gu
+        geo = self.g(held)
+        outs = []
+        for (a, b) in ((geo.central_pixel_coordinates, geo.central_scaled_coordinates),
+                       (gu.central_pixel_coordinates_2d_from(shape_native=self.sh),
+                        gu.central_scaled_coordinate_2d_from(shape_native=self.sh, pixel_scales=self.ps, **self.ko))):
+            outs.append(([frac(a[0]), frac(a[1])], [frac(b[0]), frac(b[1])]))
+        return [f"(KCentral2 {self.hdr} {cq(self.tol_p())} {q2(a)} {q2(b)})" for a, b in outs] + self.geo_of(held)[0], str(outs[0]), None
+    def extent(self, held=True, fresh_array=True):
+        outs = [self.g(held).extent]
+        if fresh_array: outs.append(self.aa.Array2D.no_mask(values=np.zeros(self.sh), pixel_scales=self.ps, **self.ko).geometry.extent)
+        return [f"(KExtent2 {self.hdr} {cq(self.tol_s())} {q4(e)})" for e in outs], str(outs[0]), None
+    def extentgrid(self, held=True):
+        ext = self.g(held).extent
+        objs = [self.aa.Grid2D.uniform(shape_native=self.sh, pixel_scales=self.ps_pub, **self.ko), self.mask.derive_grid.all_false]
+        terms = [f"(KExtentGrid {self.hdr} {cq(self.tol_s())} {q4(ext)} {q2list(fr2(np.array(g)))})" for g in objs]
+        terms.append(f"(KUniformC {self.hdr} {cq(self.tol_s())} {cgobj(objs[0])})")
+        terms.append(f"(KDeriveAllFalseC {self.mobj()} {cq(self.tol_s())} {cgobj(objs[1])})")
+        return terms, str(ext), None
+    def pix(self, c, held=True):
+        from autoarray.geometry import geometry_util as gu
+        if self.margin_bad([c]): return None
+        geo = self.g(held)
+        pt = (fl(c[0]), fl(c[1]))
+        outs = [geo.pixel_coordinates_2d_from(scaled_coordinates_2d=pt),
+                gu.pixel_coordinates_2d_from(scaled_coordinates_2d=pt, shape_native=self.sh, pixel_scales=self.ps, **self.kos)]
+        # snapping a coordinate to its pixel centre = index -> centre
+        snapped = geo.scaled_coordinate_2d_to_scaled_at_pixel_centre_from(scaled_coordinate_2d=pt)
+        back = geo.scaled_coordinates_2d_from(pixel_coordinates_2d=outs[0])
+        ok = bool(tuple(snapped) == tuple(back))
+        terms = [f"(KPix2 {self.hdr} {q2((F(c[0]), F(c[1])))} {z2((int(o[0]), int(o[1])))})" for o in outs]
+        pi = (int(outs[0][0]), int(outs[0][1]))
+        tsn = cq(self.tol_s(pi[0] * self.sy, pi[1] * self.sx))
+        terms.append(f"(KScaled2 {self.hdr} {q2(pi)} {tsn} {q2((frac(snapped[0]), frac(snapped[1])))})")
+        terms.append(f"(KSnap {self.hdr} {q2((F(c[0]), F(c[1])))} {tsn} {q2((frac(snapped[0]), frac(snapped[1])))})")
+        return terms, str(outs[0]), ok
+    def scaled(self, p, held=True):
+        from autoarray.geometry import geometry_util as gu
+        pp = (fl(p[0]), fl(p[1]))
+        outs = [self.g(held).scaled_coordinates_2d_from(pixel_coordinates_2d=pp),
+                gu.scaled_coordinates_2d_from(pixel_coordinates_2d=pp, shape_native=self.sh, pixel_scales=self.ps, **self.kos)]
+        tol = cq(self.tol_s(F(p[0]) * self.sy, F(p[1]) * self.sx))
+        return [f"(KScaled2 {self.hdr} {q2((F(p[0]), F(p[1])))} {tol} {q2((frac(o[0]), frac(o[1])))})" for o in outs], str(outs[0]), None
+    def grid(self, kind, G, held=True):
+        """kind in gridpixels / gridcentres / gridindexes / gridscaled; G: the Grid2D object that carries the query points (whatever
+        its own shape / pixel scales / history); the points are read from it"""
+        from autoarray.geometry import geometry_util as gu
+        arr = np.array(G).copy()
+        if arr.ndim != 2: raise ValueError("harness: query container is not slim")
+        g = fr2(arr)
+        if kind in ("gridcentres", "gridindexes") and self.margin_bad(g): return None
+        geo = self.g(held)
+        gq = q2list(g)
+        arr_in = arr.copy()
+        Gobj = cgobj(G)               # the Grid2D handed in: its values and its OWN mask object
+        if kind == "gridpixels":
+            R = geo.grid_pixels_2d_from(grid_scaled_2d=G)
+            outs = [np.array(R), gu.grid_pixels_2d_slim_from(grid_scaled_2d_slim=arr_in, **self.kw)]
+            tol = cq(self.tol_p(*[p[0] / self.sy for p in g], *[p[1] / self.sx for p in g]))
+            terms = [f"(KGeoGrid 0 {self.hdr} {Gobj} {tol} {cgobj(R)})"]
+            terms += [f"(KGridPixels {self.hdr} {gq} {tol} {q2list(fr2(o))})" for o in outs[1:] if not same_arr(o, outs[0])]
+        elif kind == "gridscaled":
+            R = geo.grid_scaled_2d_from(grid_pixels_2d=G)
+            outs = [np.array(R), gu.grid_scaled_2d_slim_from(grid_pixels_2d_slim=arr_in, **self.kw)]
+            tol = cq(self.tol_s(*[p[0] * self.sy for p in g], *[p[1] * self.sx for p in g]))
+            terms = [f"(KGeoGrid 2 {self.hdr} {Gobj} {tol} {cgobj(R)})"]
+            terms += [f"(KGridScaled {self.hdr} {gq} {tol} {q2list(fr2(o))})" for o in outs[1:] if not same_arr(o, outs[0])]
+        elif kind == "gridcentres":
+            R = geo.grid_pixel_centres_2d_from(grid_scaled_2d=G)
+            outs = [np.array(R), gu.grid_pixel_centres_2d_slim_from(grid_scaled_2d_slim=arr_in, **self.kw)]
+            terms = [f"(KGeoGrid 1 {self.hdr} {Gobj} {cq(0)} {cgobj(R)})"]
+            terms += [f"(KGridCentres {self.hdr} {gq} {q2list(fr2(o))})" for o in outs[1:] if not same_arr(o.astype(float), outs[0].astype(float))]
+            # the native (3-D) routine on the same points, laid out in the container's own native shape (all-false containers only)
+            if not np.array(G.mask).any():
+                h, w = G.mask.shape_native
+                nat_in = arr.reshape(h, w, 2).copy()
+                nat = gu.grid_pixel_centres_2d_from(grid_scaled_2d=nat_in, **self.kw)
+                rows_q = clist([q2list(fr2(nat_in[i])) for i in range(h)])
+                terms.append(f"(KNative3 {self.hdr} {rows_q} {clist([q2list(fr2(nat[i])) for i in range(h)])})")
+                if not same_arr(nat_in, arr.reshape(h, w, 2)): arr_in = None
+        else:
+            R = geo.grid_pixel_indexes_2d_from(grid_scaled_2d=G)
+            outs = [np.array(R), gu.grid_pixel_indexes_2d_slim_from(grid_scaled_2d_slim=arr_in, **self.kw)]
+            terms = [f"(KGeoIndexes {self.hdr} {Gobj} ({qlist([frac(v) for v in np.array(R)])}, {cmobj(R.mask)}))"]
+            terms += [f"(KGridIndexes {self.hdr} {gq} {qlist([frac(v) for v in o])})" for o in outs[1:] if not same_arr(o.astype(float), outs[0].astype(float))]
+        # the caller's objects are left as they were: the Grid2D handed to the method, the array handed to the util function
+        ok = arr_in is not None and same_arr(np.array(G), arr) and same_arr(arr_in, arr)
+        return terms, str(outs[0].tolist()), ok
+    def gridmask(self, siblings=True):
+        """the pixel-centre grid of the CURRENT content of the live mask"""
+        from autoarray.structures.grids import grid_2d_util as g2u
+        aa, H, W, m = self.aa, self.H, self.W, self.m
+        marr = np.array(m, dtype=bool); marr_in = marr.copy()
+        objs = [aa.Grid2D.from_mask(mask=self.mask), self.mask.derive_grid.unmasked]
+        outs = [np.array(objs[0]), np.array(objs[1]),
+                g2u.grid_2d_slim_via_mask_from(mask_2d=marr_in, pixel_scales=self.ps, **self.ko)]
+        tol = cq(self.tol_s())
+        s, o = q2((self.sy, self.sx)), q2((self.oy, self.ox))
+        # identical outputs are judged once: the OBJECT returned by Grid2D.from_mask always; derive_grid.unmasked and the util routine only
+        # where what they returned differs from it
+        terms = [f"(KFromMaskC {self.mobj()} {tol} {cgobj(objs[0])})"]
+        if cgobj(objs[1]) != cgobj(objs[0]): terms.append(f"(KDeriveUnmaskedC {self.mobj()} {tol} {cgobj(objs[1])})")
+        terms += [f"(KGridMask {cmask(m)} {s} {o} {tol} {q2list(fr2(ou))})" for ou in outs[2:] if not same_arr(ou, outs[0])]
+        ok = same_arr(marr_in, marr) and same_arr(np.array(self.mask), marr)
+        if siblings:
+            # the all-false grids of the same geometry: Grid2D.uniform, derive_grid.all_false, the native form of from_mask
+            full = [[False] * W for _ in range(H)]
+            outs2 = [np.array(aa.Grid2D.uniform(shape_native=self.sh, pixel_scales=self.ps, **self.ko)), np.array(self.mask.derive_grid.all_false)]
+            terms += [f"(KGridMask {cmask(full)} {s} {o} {tol} {q2list(fr2(ou))})" for ou in outs2]
+            nat = np.array(aa.Grid2D.from_mask(mask=self.mask).native)
+            un = [(i, j) for i in range(H) for j in range(W) if not m[i][j]]
+            ok = ok and bool(nat.shape == (H, W, 2) and all((nat[i, j] == outs[0][k]).all() for k, (i, j) in enumerate(un))
+                             and all((nat[i, j] == 0).all() for i in range(H) for j in range(W) if m[i][j]))
+        return terms, str(outs[0].tolist()), ok
+    def edit(self, at, val):
+        """the user's in-place edit of the mask"""
+        i, j = at
+        if val and sum(1 for r in self.m for b in r if not b) == 1 and not self.m[i][j]: return    # keep one unmasked pixel
+        self.mask[i, j] = bool(val); self.m[i][j] = bool(val)
+
+class G1:
+    def __init__(self, aa, n, s, o, exact, m=None):
+        self.aa = aa; self.exact = exact; self.n = n = int(n); self.s = s = F(s); self.o = o = F(o)
+        self.sh, self.ps, self.org = (n,), (fl(s),), (fl(o),)
+        self.ko = {} if o == 0 else {"origin": self.org}
+        self.kos = {} if o == 0 else {"origins": self.org}
+        self.m = list(map(bool, m)) if m is not None else [False] * n
+        self.mask = aa.Mask1D(mask=np.array(self.m, dtype=bool), pixel_scales=self.ps, **self.ko)
+        self.hdr = f"{cz(n)} {cq(s)} {cq(o)}"
+    def tol_s(self, *extra): return tol_of(self.exact, abs(self.o) + self.n * self.s + max([abs(F(e)) for e in extra] + [0]))
+    def tol_p(self, *extra): return tol_of(self.exact, self.n + 1 + abs(self.o / self.s) + max([abs(F(e)) for e in extra] + [0]))
+    def extent_term(self, e): return f"(KExtent1 {self.hdr} {cq(self.tol_s())} {q2((frac(e[0]), frac(e[1])))})"
+    def grid_term(self, m, v): return f"(KGrid1Mask {clist([cbool(b) for b in m])} {cq(self.s)} {cq(self.o)} {cq(self.tol_s())} {qlist([frac(x) for x in v])})"
+    def mobj(self): return f"({clist([cbool(b) for b in self.m])}, {cq(self.s)}, {cq(self.o)})"
+    def extent(self):
+        geo = self.mask.geometry
+        e = geo.extent
+        gt = f"(KGeoOf1 {self.mobj()} ({cz(geo.shape_native[0])}, {cq(frac(geo.pixel_scales[0]))}, {cq(frac(geo.origin[0]))}))"
+        return [self.extent_term(e), gt], str(e), None
+    def gridmask(self):
+        from autoarray.structures.grids import grid_1d_util as g1u
+        marr = np.array(self.m, dtype=bool); marr_in = marr.copy()
+        G = self.aa.Grid1D.from_mask(mask=self.mask)
+        outs = [np.array(G), g1u.grid_1d_slim_via_mask_from(mask_1d=marr_in, pixel_scales=self.ps, **self.ko)]
+        terms = [self.grid_term(self.m, ou) for ou in outs]
+        terms.append(f"(KFromMask1C {self.mobj()} {cq(self.tol_s())} {cg1obj(G)})")
+        return terms, str(outs[0].tolist()), same_arr(marr_in, marr) and same_arr(np.array(self.mask), marr)
+    def uniform(self):
+        from autoarray.structures.grids import grid_1d_util as g1u
+        U = self.aa.Grid1D.uniform(shape_native=self.sh, pixel_scales=self.ps, **self.ko)
+        u = np.array(U)
+        u2 = g1u.grid_1d_slim_via_shape_slim_from(shape_slim=self.sh, pixel_scales=self.ps, **self.ko)
+        terms = [self.grid_term([False] * self.n, u), self.grid_term([False] * self.n, u2), f"(KUniform1C {self.hdr} {cq(self.tol_s())} {cg1obj(U)})"]
+        for inv in (False, True):
+            A = self.aa.Mask1D.all_false(shape_slim=self.sh, pixel_scales=self.ps, **self.ko, invert=inv)
+            terms.append(f"(KAllFalse1C {self.hdr} {cbool(inv)} {cm1obj(A)})")
+        return terms, str(u.tolist()), None
+    def edit(self, at, val):
+        if val and sum(1 for b in self.m if not b) == 1 and not self.m[at]: return
+        self.mask[at] = bool(val); self.m[at] = bool(val)
 
 def run_case(inp):
     aa = import_aa()
     from autoarray.geometry import geometry_util as gu
-    from autoarray.structures.grids import grid_2d_util as g2u, grid_1d_util as g1u
     from autoarray.mask import mask_2d_util as mu
     op = inp["op"]
     exact = inp["exact"]
-    tol = cq(0 if exact else TOL)
     base = {"kind": op + (":exact" if exact else ":tol"), "nontrivial": nontrivial(inp), "py_ok": None}
-    def done(terms, out):
+    def done(terms, out, ok=None):
         terms = list(dict.fromkeys(terms))      # public entry point and util function normally return the same thing: one Coq case
+        if ok is not None: base["py_ok"] = bool(ok) if base["py_ok"] is None else (base["py_ok"] and bool(ok))
         return dict(base, coq=terms[0], extra_coq=terms[1:], out=out)
     def skip():
         SKIPPED["inband"] += 1
         return dict(base, coq=None, out="skipped: inside the decision band", kind="skipped-inband", nontrivial=False)
+    def finish(r):
+        return skip() if r is None else done(*r)
 
     if op in GEOM_OPS:
-        H, W = inp["shape"]; sy, sx = F(inp["s"][0]), F(inp["s"][1]); oy, ox = F(inp["o"][0]), F(inp["o"][1])
-        sh, ps, org = (H, W), (fl(sy), fl(sx)), (fl(oy), fl(ox))
-        hdr = f"{z2(sh)} {q2((sy, sx))} {q2((oy, ox))}"
-        ps_pub = ps[0] if (sy == sx and (H + W) % 2) else ps       # a bare float is widened by convert_pixel_scales_2d
-        mask = aa.Mask2D.all_false(shape_native=sh, pixel_scales=ps_pub, origin=org) if op != "gridmask" else None
-        def margin_bad(pts):
-            return (not exact) and any(in_margin(pixel_pos(H, sy, oy, F(p[0]), True)) or in_margin(pixel_pos(W, sx, ox, F(p[1]), False))
-                                       for p in pts)
-        if op == "central2":
-            outs = []
-            for (a, b) in ((mask.geometry.central_pixel_coordinates, mask.geometry.central_scaled_coordinates),
-                           (gu.central_pixel_coordinates_2d_from(shape_native=sh),
-                            gu.central_scaled_coordinate_2d_from(shape_native=sh, pixel_scales=ps, origin=org))):
-                outs.append(([frac(a[0]), frac(a[1])], [frac(b[0]), frac(b[1])]))
-            return done([f"(KCentral2 {hdr} {tol} {q2(a)} {q2(b)})" for a, b in outs], str(outs[0]))
-        if op == "extent2":
-            e = mask.geometry.extent
-            arr = aa.Array2D.no_mask(values=np.zeros(sh), pixel_scales=ps, origin=org)
-            outs = [[frac(v) for v in e], [frac(v) for v in arr.geometry.extent]]
-            return done([f"(KExtent2 {hdr} {tol} {ctup([cq(v) for v in o])})" for o in outs], str(outs[0]))
-        if op == "pix2":
+        g2 = G2(aa, inp["shape"], inp["s"], inp["o"], exact, m=inp.get("m"))
+        if op == "central2": return finish(g2.central())
+        if op == "extent2": return finish(g2.extent())
+        if op == "extentgrid": return finish(g2.extentgrid())
+        if op == "pix2": return finish(g2.pix(inp["c"]))
+        if op == "scaled2": return finish(g2.scaled(inp["p"]))
+        if op == "gridmask": return finish(g2.gridmask())
+        return finish(g2.grid(op, grid_obj(aa, inp["g"], inp.get("cont"))))
+
+    if op == "session":
+        pool = [G2(aa, o["shape"], o["s"], o["o"], exact, m=o["m"]) for o in inp["objs"]]
+        acc = Acc()
+        for st in inp["steps"]:
+            g2 = pool[st["k"]]; do = st["do"]; held = st.get("held", True)
+            if do == "edit": g2.edit(st["at"], st["val"]); continue
+            if do == "extent": r = g2.extent(held, fresh_array=False)
+            elif do == "central": r = g2.central(held)
+            elif do == "extentgrid": r = g2.extentgrid(held)
+            elif do == "pix": r = g2.pix(st["c"], held)
+            elif do == "scaled": r = g2.scaled(st["p"], held)
+            elif do == "grid": r = g2.gridmask(siblings=False)
+            else: r = g2.grid({"gc": "gridcentres", "gi": "gridindexes", "gp": "gridpixels", "gs": "gridscaled"}[do], grid_obj(aa, st["g"], st["cont"]), held)
+            if r is None: acc.skipped += 1; continue
+            acc.add(*r)
+        if not acc.terms: return skip()
+        return done(acc.terms, acc.out, acc.py_ok())
+
+    if op == "session1":
+        pool = [G1(aa, o["n"], o["s"], o["o"], exact, m=o["m"]) for o in inp["objs"]]
+        acc = Acc()
+        for st in inp["steps"]:
+            g1 = pool[st["k"]]; do = st["do"]
+            if do == "edit": g1.edit(st["at"], st["val"]); continue
+            acc.add(*(g1.extent() if do == "extent" else g1.gridmask() if do == "grid" else g1.uniform()))
+        if not acc.terms: return skip()
+        return done(acc.terms, acc.out, acc.py_ok())
+
+    if op == "derived":
+        g2 = G2(aa, inp["shape"], inp["s"], inp["o"], exact, m=inp.get("m"))
+        H, W = g2.sh
+        acc = Acc()
+        how = inp["how"]
+        if how == "array":
+            # structures DERIVED from a constructed Array2D / Grid2D carry the geometry of the original
+            arr = aa.Array2D.no_mask(values=np.arange(1.0, H * W + 1.0).reshape(H, W), pixel_scales=g2.ps_pub, **g2.ko)
+            grd = aa.Grid2D.uniform(shape_native=g2.sh, pixel_scales=g2.ps_pub, **g2.ko)
+            ders = [arr * 2.0, arr + arr, arr.native, arr.slim, arr.native.slim, (arr - 1.0).native, grd.native, grd * 1.0, grd.native.slim,
+                    aa.Grid2D.from_mask(mask=g2.mask), g2.mask.derive_grid.all_false, g2.mask.derive_mask.all_false]
             c = inp["c"]
-            if margin_bad([c]): return skip()
-            pt = (fl(c[0]), fl(c[1]))
-            outs = [mask.geometry.pixel_coordinates_2d_from(scaled_coordinates_2d=pt),
-                    gu.pixel_coordinates_2d_from(scaled_coordinates_2d=pt, shape_native=sh, pixel_scales=ps, origins=org)]
-            # snapping a coordinate to its pixel centre = index -> centre
-            snap = mask.geometry.scaled_coordinate_2d_to_scaled_at_pixel_centre_from(scaled_coordinate_2d=pt)
-            back = mask.geometry.scaled_coordinates_2d_from(pixel_coordinates_2d=outs[0])
-            base["py_ok"] = bool(tuple(snap) == tuple(back))
-            terms = [f"(KPix2 {hdr} {q2((F(c[0]), F(c[1])))} {z2((int(o[0]), int(o[1])))})" for o in outs]
-            terms.append(f"(KScaled2 {hdr} {q2((int(outs[0][0]), int(outs[0][1])))} {tol} {q2((frac(snap[0]), frac(snap[1])))})")
-            return done(terms, str(outs[0]))
-        if op == "scaled2":
-            p = inp["p"]
-            pp = (fl(p[0]), fl(p[1]))
-            outs = [mask.geometry.scaled_coordinates_2d_from(pixel_coordinates_2d=pp),
-                    gu.scaled_coordinates_2d_from(pixel_coordinates_2d=pp, shape_native=sh, pixel_scales=ps, origins=org)]
-            return done([f"(KScaled2 {hdr} {q2((F(p[0]), F(p[1])))} {tol} {q2((frac(o[0]), frac(o[1])))})" for o in outs], str(outs[0]))
-        if op in ("gridpixels", "gridcentres", "gridindexes", "gridscaled"):
-            g = inp["g"]
-            if op != "gridscaled" and op != "gridpixels" and margin_bad(g): return skip()
-            G = grid_obj(aa, g)
-            arr = np.array([[fl(p[0]), fl(p[1])] for p in g])
-            gq = q2list([(F(p[0]), F(p[1])) for p in g])
-            kw = dict(shape_native=sh, pixel_scales=ps, origin=org)
-            if op == "gridpixels":
-                outs = [np.array(mask.geometry.grid_pixels_2d_from(grid_scaled_2d=G)), gu.grid_pixels_2d_slim_from(grid_scaled_2d_slim=arr, **kw)]
-                return done([f"(KGridPixels {hdr} {gq} {tol} {q2list(fr2(o))})" for o in outs], str(outs[0].tolist()))
-            if op == "gridscaled":
-                outs = [np.array(mask.geometry.grid_scaled_2d_from(grid_pixels_2d=G)), gu.grid_scaled_2d_slim_from(grid_pixels_2d_slim=arr, **kw)]
-                return done([f"(KGridScaled {hdr} {gq} {tol} {q2list(fr2(o))})" for o in outs], str(outs[0].tolist()))
-            if op == "gridcentres":
-                outs = [np.array(mask.geometry.grid_pixel_centres_2d_from(grid_scaled_2d=G)),
-                        gu.grid_pixel_centres_2d_slim_from(grid_scaled_2d_slim=arr, **kw)]
-                return done([f"(KGridCentres {hdr} {gq} {q2list(fr2(o))})" for o in outs], str(outs[0].tolist()))
-            outs = [np.array(mask.geometry.grid_pixel_indexes_2d_from(grid_scaled_2d=G)),
-                    gu.grid_pixel_indexes_2d_slim_from(grid_scaled_2d_slim=arr, **kw)]
-            return done([f"(KGridIndexes {hdr} {gq} {qlist([frac(v) for v in o])})" for o in outs], str(outs[0].tolist()))
-        if op == "gridmask":
-            m = inp["m"]
-            mk = aa.Mask2D(mask=np.array(m, dtype=bool), pixel_scales=ps, origin=org)
-            outs = [np.array(aa.Grid2D.from_mask(mask=mk)), np.array(mk.derive_grid.unmasked),
-                    g2u.grid_2d_slim_via_mask_from(mask_2d=np.array(m, dtype=bool), pixel_scales=ps, origin=org)]
-            terms = [f"(KGridMask {cmask(m)} {q2((sy, sx))} {q2((oy, ox))} {tol} {q2list(fr2(o))})" for o in outs]
-            # the all-false grids of the same geometry: Grid2D.uniform, derive_grid.all_false, the native form of from_mask
-            full = [[False] * W for _ in range(H)]
-            outs2 = [np.array(aa.Grid2D.uniform(shape_native=sh, pixel_scales=ps, origin=org)), np.array(mk.derive_grid.all_false)]
-            terms += [f"(KGridMask {cmask(full)} {q2((sy, sx))} {q2((oy, ox))} {tol} {q2list(fr2(o))})" for o in outs2]
-            nat = np.array(aa.Grid2D.from_mask(mask=mk).native)
-            un = [(i, j) for i in range(H) for j in range(W) if not m[i][j]]
-            base["py_ok"] = bool(nat.shape == (H, W, 2) and all((nat[i, j] == outs[0][k]).all() for k, (i, j) in enumerate(un))
-                                 and all((nat[i, j] == 0).all() for i in range(H) for j in range(W) if m[i][j]))
-            return done(terms, str(outs[0].tolist()))
+            for d in ders:
+                e = d.geometry.extent
+                acc.add([f"(KExtent2 {g2.hdr} {cq(g2.tol_s())} {q4(e)})"], str(e))
+                if not g2.margin_bad([c]):
+                    p = d.geometry.pixel_coordinates_2d_from(scaled_coordinates_2d=(fl(c[0]), fl(c[1])))
+                    acc.add([f"(KPix2 {g2.hdr} {q2((F(c[0]), F(c[1])))} {z2((int(p[0]), int(p[1])))})"])
+            # the values of a derived uniform grid are still the pixel centres
+            full = cmask([[False] * W for _ in range(H)])
+            for d in (grd * 1.0, grd.native.slim, grd.slim):
+                acc.add([f"(KGridMask {full} {q2((g2.sy, g2.sx))} {q2((g2.oy, g2.ox))} {cq(g2.tol_s())} {q2list(fr2(np.array(d)))})"])
+        elif how == "mask":
+            # masks derived from the live mask: same pixel scales and origin, their own shape / content (read from the object)
+            ders = [g2.mask.derive_mask.all_false, g2.mask.resized_from(new_shape=tuple(inp["resized"])),
+                    aa.Mask2D(mask=g2.mask, pixel_scales=g2.ps, **g2.ko)]
+            for d in ders:
+                content = np.array(d).astype(bool).tolist()
+                dg = G2(aa, (len(content), len(content[0])), (g2.sy, g2.sx), (g2.oy, g2.ox), exact, m=content)
+                dg.mask = d; dg.geo = d.geometry
+                acc.add(*dg.extent(True, fresh_array=False)); acc.add(*dg.gridmask(siblings=False)); acc.add(*dg.central(False))
+            # a COPY with a history: read the original (anything remembered on the object is now there), copy it, edit the copy in place,
+            # read both again -- the copy reports its own content, the original is untouched
+            import copy
+            acc.add(*g2.gridmask(siblings=False))
+            for cp in (g2.mask.copy(), copy.deepcopy(g2.mask)):
+                cg = G2(aa, g2.sh, (g2.sy, g2.sx), (g2.oy, g2.ox), exact, m=g2.m)
+                cg.mask = cp; cg.geo = cp.geometry
+                i, j = (H * 7 + W) % H, (H + W * 5) % W
+                cg.edit((i, j), not g2.m[i][j])
+                acc.add(*cg.gridmask(siblings=False)); acc.add(*cg.extent(False, fresh_array=False))
+            acc.add(*g2.gridmask(siblings=False))
+        else:
+            oth = inp["other"]
+            og = G2(aa, oth["shape"], oth["s"], oth["o"], exact, m=oth["m"])
+            G0 = grid_obj(aa, inp["g"], inp["cont"])
+            conts = [G0 * 1.0, G0 + 0.0, G0.native.slim, aa.Grid2D(values=np.array(G0.native), mask=G0.mask), G0.slim,
+                     aa.Grid2D.from_mask(mask=og.mask), og.mask.derive_grid.all_false, aa.Grid2D.from_mask(mask=og.mask) * 1.0]
+            for ci, G in enumerate(conts):
+                for kind in (("gridcentres", "gridindexes", "gridpixels") if ci % 2 == 0 else ("gridindexes", "gridcentres")):
+                    r = g2.grid(kind, G, held=bool(ci % 2))
+                    if r is None: acc.skipped += 1
+                    else: acc.add(*r)
+        if not acc.terms: return skip()
+        return done(acc.terms, acc.out, acc.py_ok())
+
+    if op == "derived1":
+        g1 = G1(aa, inp["n"], inp["s"], inp["o"], exact, m=inp["m"])
+        acc = Acc()
+        arr = aa.Array1D.no_mask(values=np.arange(1.0, g1.n + 1.0), pixel_scales=g1.ps, **g1.ko)
+        grd = aa.Grid1D.from_mask(mask=g1.mask)
+        for d in (arr * 2.0, arr + arr, arr.native, arr.slim, grd, grd * 1.0, grd.native, grd.native.slim):
+            acc.add([g1.extent_term(d.geometry.extent)], str(d.geometry.extent))
+        for d in (grd * 1.0, grd.native.slim, grd.slim):
+            acc.add([g1.grid_term(g1.m, np.array(d))])
+        nat = np.array(grd.native); sl = np.array(grd)
+        un = [j for j in range(g1.n) if not g1.m[j]]
+        acc.add([], ok=bool(nat.shape == (g1.n,) and all(nat[j] == sl[k] for k, j in enumerate(un)) and all(nat[j] == 0 for j in range(g1.n) if g1.m[j])))
+        return done(acc.terms, acc.out, acc.py_ok())
+
+    if op == "derive1allfalse":
+        # Mask1D.derive_grid.all_false: every pixel's centre with the all-false mask.  KNOWN FINDING on masks with a masked pixel
+        # (fixes/C02_derive_grid_1d_all_false.diff): the key is computed from the input alone
+        g1 = G1(aa, inp["n"], inp["s"], inp["o"], exact, m=inp["m"])
+        r = done([f"(KDeriveAllFalse1 {g1.mobj()} {cq(g1.tol_s())} {cg1obj(g1.mask.derive_grid.all_false)})"], "see coq case")
+        if any(inp["m"]): r["finding"] = "derive_grid_1d_all_false_masked"
+        return r
 
     if op in GEOM1_OPS:
-        n = inp["n"]; s, o = F(inp["s"]), F(inp["o"])
-        hdr = f"{cz(n)} {cq(s)} {cq(o)}"
-        sh, ps, org = (n,), (fl(s),), (fl(o),)
+        g1 = G1(aa, inp["n"], inp["s"], inp["o"], exact, m=inp.get("m"))
+        n, s, o, hdr, sh, ps, org = g1.n, g1.s, g1.o, g1.hdr, g1.sh, g1.ps, g1.org
         if op == "central1":
             a = gu.central_pixel_coordinates_1d_from(shape_slim=sh)
-            b = gu.central_scaled_coordinate_1d_from(shape_slim=sh, pixel_scales=ps, origin=org)
-            return done([f"(KCentral1 {hdr} {tol} {cq(frac(a[0]))} {cq(frac(b[0]))})"], str((a, b)))
+            b = gu.central_scaled_coordinate_1d_from(shape_slim=sh, pixel_scales=ps, **g1.ko)
+            return done([f"(KCentral1 {hdr} {cq(g1.tol_p())} {cq(frac(a[0]))} {cq(frac(b[0]))})"], str((a, b)))
         if op == "extent1":
-            mk = aa.Mask1D.all_false(shape_slim=sh, pixel_scales=ps, origin=org)
-            e = mk.geometry.extent
-            return done([f"(KExtent1 {hdr} {tol} {q2((frac(e[0]), frac(e[1])))})"], str(e))
+            mk = aa.Mask1D.all_false(shape_slim=sh, pixel_scales=ps, **g1.ko)
+            return done([g1.extent_term(mk.geometry.extent)], str(mk.geometry.extent))
         if op == "pix1":
             x = F(inp["x"])
             if (not exact) and in_margin(pixel_pos(n, s, o, x, False)): return skip()
-            r = gu.pixel_coordinates_1d_from(scaled_coordinates_1d=(fl(x),), shape_slim=sh, pixel_scales=ps, origins=org)
+            r = gu.pixel_coordinates_1d_from(scaled_coordinates_1d=(fl(x),), shape_slim=sh, pixel_scales=ps, **g1.kos)
             return done([f"(KPix1 {hdr} {cq(x)} {cz(int(r[0]))})"], str(r))
         if op == "scaled1":
             p = F(inp["p"])
-            r = gu.scaled_coordinates_1d_from(pixel_coordinates_1d=(fl(p),), shape_slim=sh, pixel_scales=ps, origins=org)
-            return done([f"(KScaled1 {hdr} {cq(p)} {tol} {cq(frac(r[0]))})"], str(r))
+            r = gu.scaled_coordinates_1d_from(pixel_coordinates_1d=(fl(p),), shape_slim=sh, pixel_scales=ps, **g1.kos)
+            return done([f"(KScaled1 {hdr} {cq(p)} {cq(g1.tol_s(p * s))} {cq(frac(r[0]))})"], str(r))
         if op == "grid1mask":
-            m = inp["m"]
-            mk = aa.Mask1D(mask=np.array(m, dtype=bool), pixel_scales=ps, origin=org)
-            outs = [np.array(aa.Grid1D.from_mask(mask=mk)), g1u.grid_1d_slim_via_mask_from(mask_1d=np.array(m, dtype=bool), pixel_scales=ps, origin=org)]
-            cm = clist([cbool(b) for b in m])
-            terms = [f"(KGrid1Mask {cm} {cq(s)} {cq(o)} {tol} {qlist([frac(v) for v in ou])})" for ou in outs]
-            u = np.array(aa.Grid1D.uniform(shape_native=sh, pixel_scales=ps, origin=org))
-            terms.append(f"(KGrid1Mask {clist([cbool(False)] * n)} {cq(s)} {cq(o)} {tol} {qlist([frac(v) for v in u])})")
-            e = mk.geometry.extent
-            terms.append(f"(KExtent1 {hdr} {tol} {q2((frac(e[0]), frac(e[1])))})")
-            return done(terms, str(outs[0].tolist()))
+            t1, out, ok = g1.gridmask()
+            t2, _, _ = g1.uniform()
+            t3, _, _ = g1.extent()
+            return done(t1 + t2 + t3, out, ok)
 
     if op in ("circ", "ann", "anti", "ell", "ellann"):
         if mask_case_inband(inp): return skip()
         H, W = inp["shape"]; sy, sx = F(inp["s"][0]), F(inp["s"][1]); cy, cx = F(inp["c"][0]), F(inp["c"][1])
         sh, ps, ctr = (H, W), (fl(sy), fl(sx)), (fl(cy), fl(cx))
         org = (fl(inp["origin"][0]), fl(inp["origin"][1]))
+        inv = bool(inp.get("invert", False))
         hdr = f"{z2(sh)} {q2((sy, sx))}"
         cc = q2((cy, cx))
-        kw = dict(shape_native=sh, pixel_scales=ps, centre=ctr)
-        kwp = dict(kw, pixel_scales=ps[0]) if (sy == sx and (H + W) % 2) else kw      # public entry point: bare float scale
+        kw = dict(shape_native=sh, pixel_scales=ps, **({} if (cy == 0 and cx == 0) else {"centre": ctr}))     # defaults are not passed
+        korg = {} if org == (0.0, 0.0) else {"origin": org}
+        kwp = dict(kw, pixel_scales=ps[0]) if (sy == sx and (H + W) % 2) else dict(kw)      # public entry point: bare float scale
+        kwp.update(**korg, **({"invert": True} if inv else {}))
+        ctail = f"{q2((sy, sx))} {q2((F(inp['origin'][0]), F(inp['origin'][1])))} {cc} {cbool(inv)}"      # pixel_scales origin centre invert
         if op == "circ":
             r = F(inp["r"][0])
-            outs = [aa.Mask2D.circular(radius=fl(r), origin=org, **kwp), mu.mask_2d_circular_from(radius=fl(r), **kw)]
-            mk = lambda o: f"(KCirc {hdr} {cq(r)} {cc} {cmask(np.array(o))})"
+            outs = [aa.Mask2D.circular(radius=fl(r), **kwp), mu.mask_2d_circular_from(radius=fl(r), **kw)]
+            mk = lambda o: f"(KCirc {hdr} {cq(r)} {cc} {cmask(o)})"
+            mkc = lambda M: f"(KCircC {z2(sh)} {cq(r)} {ctail} {cmobj(M)})"
         elif op == "ann":
             a, b = F(inp["r"][0]), F(inp["r"][1])
-            outs = [aa.Mask2D.circular_annular(inner_radius=fl(a), outer_radius=fl(b), origin=org, **kwp),
+            outs = [aa.Mask2D.circular_annular(inner_radius=fl(a), outer_radius=fl(b), **kwp),
                     mu.mask_2d_circular_annular_from(inner_radius=fl(a), outer_radius=fl(b), **kw)]
-            mk = lambda o: f"(KAnn {hdr} {cq(a)} {cq(b)} {cc} {cmask(np.array(o))})"
+            mk = lambda o: f"(KAnn {hdr} {cq(a)} {cq(b)} {cc} {cmask(o)})"
+            mkc = lambda M: f"(KAnnC {z2(sh)} {cq(a)} {cq(b)} {ctail} {cmobj(M)})"
         elif op == "anti":
             a, b, c3 = (F(v) for v in inp["r"])
-            outs = [aa.Mask2D.circular_anti_annular(inner_radius=fl(a), outer_radius=fl(b), outer_radius_2=fl(c3), origin=org, **kwp),
+            outs = [aa.Mask2D.circular_anti_annular(inner_radius=fl(a), outer_radius=fl(b), outer_radius_2=fl(c3), **kwp),
                     mu.mask_2d_circular_anti_annular_from(inner_radius=fl(a), outer_radius=fl(b), outer_radius_2_scaled=fl(c3), **kw)]
-            mk = lambda o: f"(KAnti {hdr} {cq(a)} {cq(b)} {cq(c3)} {cc} {cmask(np.array(o))})"
+            mk = lambda o: f"(KAnti {hdr} {cq(a)} {cq(b)} {cq(c3)} {cc} {cmask(o)})"
+            mkc = lambda M: f"(KAntiC {z2(sh)} {cq(a)} {cq(b)} {cq(c3)} {ctail} {cmobj(M)})"
         elif op == "ell":
             R, q, ang, co, si = (F(v) for v in inp["ell"][0])
             check_cs(ang, co, si)
-            outs = [aa.Mask2D.elliptical(major_axis_radius=fl(R), axis_ratio=fl(q), angle=fl(ang), origin=org, **kwp),
+            outs = [aa.Mask2D.elliptical(major_axis_radius=fl(R), axis_ratio=fl(q), angle=fl(ang), **kwp),
                     mu.mask_2d_elliptical_from(major_axis_radius=fl(R), axis_ratio=fl(q), angle=fl(ang), **kw)]
-            mk = lambda o: f"(KEll {hdr} {cq(R)} {cq(q)} {q2((co, si))} {cc} {cmask(np.array(o))})"
+            mk = lambda o: f"(KEll {hdr} {cq(R)} {cq(q)} {q2((co, si))} {cc} {cmask(o)})"
+            mkc = lambda M: f"(KEllC {z2(sh)} {cq(R)} {cq(q)} {q2((co, si))} {ctail} {cmobj(M)})"
         else:
             (Ri, qi, ai, ci, si_), (Ro, qo, ao, co, so) = [[F(v) for v in e] for e in inp["ell"]]
             check_cs(ai, ci, si_); check_cs(ao, co, so)
             k2 = dict(inner_major_axis_radius=fl(Ri), inner_axis_ratio=fl(qi), inner_phi=fl(ai),
                       outer_major_axis_radius=fl(Ro), outer_axis_ratio=fl(qo), outer_phi=fl(ao))
-            outs = [aa.Mask2D.elliptical_annular(origin=org, **k2, **kwp), mu.mask_2d_elliptical_annular_from(**k2, **kw)]
-            mk = lambda o: f"(KEllAnn {hdr} {cq(Ri)} {cq(qi)} {q2((ci, si_))} {cq(Ro)} {cq(qo)} {q2((co, so))} {cc} {cmask(np.array(o))})"
-        base["py_ok"] = bool(tuple(outs[0].origin) == org and tuple(outs[0].pixel_scales) == ps and tuple(outs[0].shape_native) == sh)
-        terms = [mk(o) for o in outs]
+            outs = [aa.Mask2D.elliptical_annular(**k2, **kwp), mu.mask_2d_elliptical_annular_from(**k2, **kw)]
+            mk = lambda o: f"(KEllAnn {hdr} {cq(Ri)} {cq(qi)} {q2((ci, si_))} {cq(Ro)} {cq(qo)} {q2((co, so))} {cc} {cmask(o)})"
+            mkc = lambda M: f"(KEllAnnC {z2(sh)} {cq(Ri)} {cq(qi)} {q2((ci, si_))} {cq(Ro)} {cq(qo)} {q2((co, so))} {ctail} {cmobj(M)})"
+        pub = outs[0]
+        ok = bool(tuple(pub.origin) == org and tuple(pub.pixel_scales) == ps and tuple(pub.shape_native) == sh)
+        pubm = np.array(pub).astype(bool)
+        # the util routine's array, and the OBJECT the public constructor returned (content -- complemented when invert=True --, pixel scales, origin)
+        utilm = np.array(outs[1]).astype(bool)
+        terms = [mkc(pub)] + ([] if same_arr(utilm, ~pubm if inv else pubm) else [mk(utilm)])      # the util array is judged separately only where it differs
+        af = aa.Mask2D.all_false(shape_native=sh, pixel_scales=kwp["pixel_scales"], **korg, invert=inv)
+        terms.append(f"(KAllFalseC {z2(sh)} {q2((sy, sx))} {q2((F(inp['origin'][0]), F(inp['origin'][1])))} {cbool(inv)} {cmobj(af)})")
+        # the pixel-centre grid of the constructed mask is placed with the mask's origin
+        gt = G2(aa, sh, (sy, sx), (F(inp["origin"][0]), F(inp["origin"][1])), exact, m=pubm.tolist())
+        gt.mask = pub; gt.geo = pub.geometry
+        if pubm.sum() < pubm.size and (H + W + len(inp["r"] if "r" in inp else inp["ell"])) % 2 == 0:
+            t2, _, ok2 = gt.gridmask(siblings=False); terms += t2; ok = ok and ok2
+        terms += gt.extent(False, fresh_array=False)[0]
         # mask_2d_centres_from: the pixel position of the requested centre
         mc = mu.mask_2d_centres_from(shape_native=sh, pixel_scales=ps, centre=ctr)
-        terms.append(f"(KMaskCentres {hdr} {cc} {cq(0 if exact else TOL)} {q2((frac(mc[0]), frac(mc[1])))})")
-        return done(terms, str(np.array(outs[0]).astype(int).tolist()))
+        tolp = tol_of(exact, max(H, W) + 1 + max(abs(cy / sy), abs(cx / sx)))
+        terms.append(f"(KMaskCentres {hdr} {cc} {cq(tolp)} {q2((frac(mc[0]), frac(mc[1])))})")
+        return done(terms, str(pubm.astype(int).tolist()), ok)
     raise ValueError(op)
